@@ -31,6 +31,8 @@ fn unit_scenario(direct: Direct, initial_parts: Vec<(u8, u16)>, steps: Vec<Step>
         initial_succeeded: vec![],
         cfg_later: None,
         notif_stall: false,
+        pay_opts: None,
+        fail_store: None,
     }
 }
 
